@@ -261,13 +261,54 @@ def run(chk: Check, repo: Repo) -> None:
     # serialised (and that the eager decode of a configured address chokes on)
     ppc = CFG(pp.node)
     ppf = ppc.must_facts()
-    built = [n for n in ppc.nodes if n.kind == "stmt" and isinstance(n.ast, ast.Assign) and isinstance(n.ast.value, ast.Call) and call_name(n.ast.value) == "DPTArray" and len(n.ast.targets) == 1 and isinstance(n.ast.targets[0], ast.Name)]
-    for bn in built:
-        local = bn.ast.targets[0].id
-        rets = [n for n in ppc.nodes if n.kind == "stmt" and isinstance(n.ast, ast.Return) and isinstance(n.ast.value, ast.Name) and n.ast.value.id == local and ppc.dominates(bn.id, n.id)]
-        ok = bool(rets) and all(any(v and a.startswith("all(") and "isinstance(" in a and ", int)" in a and f"{local}.value" in a for a, v in ppf[r.id]) for r in rets)
-        chk.ob("raw-payload-elements-are-integers", pp.site(bn.ast), ok, f"_parse_payload returns the DPTArray built from caller data " + ("only after all(isinstance(.., int) ..) over its elements held" if ok else "without checking that its elements are integers - DPTArray range-checks integers only"), key="raw|elements-int")
-    chk.floor("raw DPTArray constructions in _parse_payload", len(built), 1)
+    rd = ppc.reaching_defs()
+    raw_rets = []
+    for r in [n for n in ppc.nodes if n.kind == "stmt" and isinstance(n.ast, ast.Return) and isinstance(n.ast.value, ast.Name)]:
+        local = r.ast.value.id
+        defs = [ppc.nodes[d].ast for d in rd[r.id].get(local, ()) if d >= 0]
+        # a payload taken from the caller: built by DPTArray(<caller data>) or the caller's own DPTArray object
+        if any(isinstance(d, ast.Assign) and ((isinstance(d.value, ast.Call) and call_name(d.value) == "DPTArray") or isinstance(d.value, ast.Name)) for d in defs):
+            raw_rets.append((r, local))
+    for r, local in raw_rets:
+        facts = ppf[r.id]
+        ints = any(v and a.startswith("all(") and "isinstance(" in a and ", int)" in a and f"{local}.value" in a for a, v in facts)
+        nonempty = any((a == f"{local}.value" and v) or (a == f"not {local}.value" and v is False) for a, v in facts)
+        bounded = any(a.startswith(f"len({local}.value) > ") and v is False for a, v in facts) or any(a.startswith(f"len({local}.value) <= ") and v for a, v in facts)
+        chk.ob("raw-payload-elements-are-integers", pp.site(r.ast), ints, "_parse_payload returns a raw payload " + ("only after all(isinstance(.., int) ..) over its elements held" if ints else "without checking that its elements are integers - DPTArray range-checks integers only"), key="raw|elements-int")
+        chk.ob("raw-payload-fits-a-frame", pp.site(r.ast), nonempty and bounded, "_parse_payload returns a raw payload " + ("only when it is not empty and not longer than a frame can carry" if nonempty and bounded else f"without bounding it (non-empty: {nonempty}, length bound: {bounded}) - the sender drops what does not fit, after the call reported success"), key="raw|length")
+    chk.floor("raw payload returns of _parse_payload", len(raw_rets), 1)
+    # the complex datapoint encoders build their octets from the fields of a value object and rely on DPTArray to refuse
+    # what is no octet - which it does for integers only: DPTComplex.to_knx (the one public entry) returns a DPTArray only
+    # after checking that its elements are integers (a float colour component would be queued and fail at serialisation)
+    ct = repo.func("xknx.dpt.dpt", "DPTComplex.to_knx")
+    chk.unit(ct)
+    cc = CFG(ct.node)
+    cf = cc.must_facts()
+    crets = [n for n in cc.nodes if n.kind == "stmt" and isinstance(n.ast, ast.Return) and n.ast.value is not None]
+    okc = bool(crets)
+    for r in crets:
+        if not isinstance(r.ast.value, ast.Name):
+            okc = False  # the encoder's result is returned without passing the check
+            continue
+        loc = r.ast.value.id
+        # reached only past `isinstance(p, DPTArray) and not all(..)` being false: no path with the array test true and the
+        # all-int test false
+        t_arr = [n.id for n in cc.nodes if n.kind == "test" and n.ast is not None and ast.unparse(n.ast) == f"isinstance({loc}, DPTArray)"]
+        t_all = [n.id for n in cc.nodes if n.kind == "test" and n.ast is not None and ast.unparse(n.ast).startswith("all(") and "isinstance(" in ast.unparse(n.ast) and ", int)" in ast.unparse(n.ast) and f"{loc}.value" in ast.unparse(n.ast)]
+        def passes(s_: int, t_: int, lab: str) -> bool:
+            if lab == "exc":
+                return False
+            if s_ in t_arr and lab == "false":
+                return False
+            if s_ in t_all and lab == "true":
+                return False
+            return True
+        okc = okc and bool(t_arr) and bool(t_all) and r.id not in cc.reachable([cc.entry], edge_ok=passes)
+    chk.ob("complex-value-octets-are-integers", ct.site(), okc, "DPTComplex.to_knx returns the encoded DPTArray " + ("only when all its elements are integers" if okc else "without checking its elements - DPTArray range-checks integers only, a float field is queued and cannot be serialised"), key="complex|octets")
+    # a ready-made DPTArray / DPTBinary of the caller takes the same checks: no return of the parameter itself
+    vparam = pp.node.args.args[0].arg
+    direct = [n for n in ppc.nodes if n.kind == "stmt" and isinstance(n.ast, ast.Return) and isinstance(n.ast.value, ast.Name) and n.ast.value.id == vparam and any(v and a == f"isinstance({vparam}, DPTArray)" or (v and "DPTArray" in a and a.startswith(f"isinstance({vparam},")) for a, v in ppf[n.id])]
+    chk.ob("raw-payload-elements-are-integers", pp.site(), not direct, "a DPTArray handed in by the caller " + ("goes through the same checks" if not direct else "is returned as it is - DPTArray(()) or DPTArray((12.5, 26)) get queued"), key="raw|ready-made")
     check_entry(chk, mr, pp, ("ConversionError",), label="_parse_payload", rule="value-rejected-with-conversion-error", reviewed=builder_reviewed)
     scaling_rejects_out_of_range(chk, repo)
     ordering(chk, repo)
